@@ -195,7 +195,7 @@ def _num_pool(rng, f):
 
 BOOL_POOL = ["t", "true", "1", "on", "yes", "y", "f", "false", "0", "off", "no", "n", "T", "TRUE", "On", "YES", "False",
              "OFF", " true", "true ", "2", "yess", "", "tru", "nope", "01", 0, 1, 2, -1, 0.0, -1.5, 1e-9, float("nan"),
-             True, False, "\u0131"]
+             True, False, "\u0131", "ye\u017f", "fal\u017fe", "o\ufb00", "\u212a", "YE\u017f", "tr\u016be", "\uff54rue", "of\ufb00"]
 IPV4_POOL = ["1.2.3.4", "0.0.0.0", "255.255.255.255", "256.1.1.1", "1.2.3", "1.2.3.4.5", "a.b.c.d", "1.2.3.4 ", " 1.2.3.4",
              "1.2.3.4\n", "", "01.2.3.4", "1.2.3.-4", "\uff11.2.3.4", "1..3.4", "127.0.0.1", "1.2.3.4/32", "10.0.0.1",
              "192.168.1.255", "1.2.3.04", "1.2.3.4.", ".1.2.3.4", "0x7f.0.0.1", "1.2.3.256"]
@@ -208,10 +208,12 @@ NET_POOL = ["10.0.0.0/8", "10.0.0.0/255.0.0.0", "10.0.0.1/8", "0.0.0.0/0", "1.2.
 HOST_POOL = ["example.com", "a", "ab", "a-b.c", "-lead.com", "host name", "bad/host", "h" * 16 + "!", "abc\n", "1.2.3.4",
              "localhost", "UPPER.CASE", "under_score", "a" * 300, "x:y", "", "h" * 15, "h" * 16, "w_" * 8, "a..b", ".a",
              "a.", "192.168.1.1", "256.1.1.1", "1.2.3", "caf\u00e9.fr", "a b", "ab\n", "a\n", "!", "!!", "0", "~x~",
-             "host_name_longer_than_15", "h@st", "h\tx", " example.com"]
+             "host_name_longer_than_15", "h@st", "h\tx", " example.com",
+             # letters that only case-insensitive / case-folding comparisons take for ASCII ones
+             "backup-\u017ferver.example.com", "\u212aafka-broker-01.example.net", "\u017f" * 16, "example\u212a.internal.example"]
 URL_POOL = ["http://x.y/z", "https://a", "ftp://h/p?q=1#f", "mailto:a@b", "x:", "/path", "host/path", "", "://x", "http//x",
             "1http://x", "a b://x", "HTTP://UP", "file:///etc", "urn:isbn:1", "//host/path", "?q=1", "#frag", "c:\\dir",
-            "http://[::1", "a+b.c-d://x", "-a://x", "http:", ":", "www.example.com", "http://x\n"]
+            "http://[::1", "https://[fe80::1/metrics", "http://x]/y", "https://user:pw@][/", "ftp://h]:21/", "a+b.c-d://x", "-a://x", "http:", ":", "www.example.com", "http://x\n"]
 FILE_POOL = ["$FX/file.txt", "$FX/dir", "$FX/missing", "file.txt", "dir", "missing", "dir/inner.txt", "dir/../file.txt", "",
              "./file.txt", "dir/", "$FX/dir/inner.txt", "$FX/dir/nope", "file.txt/x", "$FX", "sub/missing"]
 
